@@ -556,3 +556,11 @@ func trimStack(s string) string {
 	}
 	return strings.Join(lines, "\n")
 }
+
+// ---- logical clock for call/return histories (invisible to the race detector) ----
+
+var clock int
+
+//go:norace
+//go:noinline
+func Tick() int { clock++; return clock }
